@@ -5,11 +5,13 @@ package main
 
 import (
 	"fmt"
+	"math"
 	"math/rand"
 
 	"deps.dev/util/resolve"
 	"deps.dev/util/resolve/dep"
 	gr "github.com/google/osv-scalibr/guidedremediation"
+	"verifharness/internal/coqfmt"
 	"github.com/google/osv-scalibr/guidedremediation/options"
 	"github.com/google/osv-scalibr/guidedremediation/result"
 )
@@ -335,4 +337,68 @@ func (c *FilterCase) coq() string {
 	col.s(c.Kept...)
 	t := col.build()
 	return fmt.Sprintf("(Build_fcase %s %s %s %s)", t.opts(c.Ignore, c.Explicit, c.DevDeps), t.fvList(c.All), t.strList(c.IgnoreAfter), t.strList(c.Kept))
+}
+
+// ---- depth and severity filters on a real analysis
+
+type GraphCase struct {
+	Kind        string   `json:"kind"`
+	Ignore      []string `json:"ignore"`
+	Explicit    []string `json:"explicit"`
+	DevDeps     bool     `json:"dev_deps"`
+	MinSeverity float64  `json:"min_severity"`
+	MaxDepth    int      `json:"max_depth"`
+	NumNodes    int      `json:"num_nodes"`
+	Edges       [][2]int `json:"edges"`
+	All         []FV     `json:"all"`
+}
+
+func graphFromAnalysis(o Opts, a Analysis) *GraphCase {
+	ca := canonAnalysis(a, o.Ignore)
+	return &GraphCase{Kind: "graph", Ignore: o.Ignore, Explicit: o.Explicit, DevDeps: o.DevDeps, MinSeverity: o.MinSeverity,
+		MaxDepth: o.MaxDepth, NumNodes: a.NumNodes, Edges: a.Edges, All: ca.All}
+}
+
+func scoreList(xs []*int64) string {
+	items := make([]string, len(xs))
+	for i, x := range xs {
+		if x == nil {
+			items[i] = "None"
+		} else {
+			items[i] = fmt.Sprintf("(Some (%d)%%Z)", *x)
+		}
+	}
+	return coqfmt.List(items)
+}
+
+func intList(xs []int, z bool) string {
+	items := make([]string, len(xs))
+	for i, x := range xs {
+		if z {
+			items[i] = fmt.Sprintf("(%d)%%Z", x)
+		} else {
+			items[i] = fmt.Sprintf("%d", x)
+		}
+	}
+	return coqfmt.List(items)
+}
+
+func (c *GraphCase) coq() string {
+	col := newCollector()
+	col.fvs(c.All)
+	col.s(c.Ignore...)
+	col.s(c.Explicit...)
+	t := col.build()
+	edges := make([]string, len(c.Edges))
+	for i, e := range c.Edges {
+		edges[i] = fmt.Sprintf("(%d,%d)", e[0], e[1])
+	}
+	vs := make([]string, len(c.All))
+	for i, v := range c.All {
+		vs[i] = fmt.Sprintf("(Build_gvuln %s %s %v %s %s %s %s, Build_gobs %v %v %v %s)",
+			t.str(v.ID), t.strList(v.Aliases), v.DevOnly, scoreList(v.Top), scoreList(v.Aff), intList(v.Nodes, false), t.pkgs(v.Packages),
+			v.SevOK, v.DepthOK, v.Matched, intList(v.RootDist, true))
+	}
+	return fmt.Sprintf("(Build_gcase %s (Build_thresholds (%d)%%Z (%d)%%Z) %d%%nat %s %s)",
+		t.opts(c.Ignore, c.Explicit, c.DevDeps), int64(math.Round(10*c.MinSeverity)), c.MaxDepth, c.NumNodes, coqfmt.List(edges), coqfmt.List(vs))
 }
